@@ -108,6 +108,9 @@ contract("artap.operators:crowding_distance", props=["C03", "C02", "C09", "C18"]
                     "forall(lambda t: cd_ok(front[t], _k2 + 1), 0, n)",
                     "extremes_inf(front, gmin, gmax, _k2 + 1)"]},
          ghost={"before:for dim in range": ["gmin = empty_ref_seq('Individual')", "gmax = empty_ref_seq('Individual')"],
+                "after:front[i].features['crowding_distance'] += distance / max_distance": [
+                    "assert cd(front[i]) == before(cd(front[i])) + gap(front, i, dim, max_distance)",
+                    "assert forall(lambda t: cd(front[t]) == before(cd(front[t])) + gap(front, t, dim, max_distance), 1, i)"],
                 "after:front[-1].features['crowding_distance'] = math.inf": ["gmin = seq_append(gmin, front[0])",
                                                                               "gmax = seq_append(gmax, front[n - 1])"]},
          modifies=["list(front)", "each(front).features.crowding_distance"])
